@@ -38,8 +38,23 @@ def gen_script(rnd, tier):
     for n in ns:
         lines.append("rid %d" % n)
     nruns = 40 if tier == "quick" else 600
+    def mac_with_hash(target):
+        # the 16-bit hash is h = (h*31 + b) mod 2^16 over the six bytes: fix the first four, solve for the last two
+        while True:
+            head = [rnd.randrange(256) for _ in range(4)]
+            h = 0
+            for b in head:
+                h = (h * 31 + b) % 65536
+            for b5 in range(256):
+                b6 = (target - ((h * 31 + b5) * 31)) % 65536
+                if b6 < 256:
+                    return "".join("%02x" % x for x in head + [b5, b6])
+
     for i in range(nruns):
         mac = "%012x" % rnd.getrandbits(48)
+        if i % 4 == 0:
+            # machine hashes at the top of the 16-bit field: the counter spill wraps it
+            mac = mac_with_hash(rnd.choice([0xffff, 0xfffe, 0xff00, 0x0000]))
         steps = []
         k = rnd.randint(5, 60 if tier == "quick" else 400)
         for _ in range(k):
@@ -52,6 +67,11 @@ def gen_script(rnd, tier):
                 steps.append(rnd.randint(1, 5) * MS)
             else:
                 steps.append(rnd.choice([1000, 86400 * 365 * 8 * 1000]) * MS)  # seconds, and a jump past 2017
+        if i % 8 == 0:
+            # more than 256 calls in each of several consecutive milliseconds
+            steps = []
+            for _ in range(rnd.randint(2, 4)):
+                steps += [0] * rnd.randint(257, 300) + [MS]
         lt = 0
         lc = rnd.choice([0, 0, 254, 255, 256, 65535, 65536, (1 << 24) - 3])
         if rnd.random() < 0.5:
